@@ -49,6 +49,9 @@ def step (s : Option St) (line : String) : Option St × String :=
     -- a burst of list updates whose last one is the current table: every update REPLACES the map (`.apply` is a
     -- function of the update's list alone), so the state after the burst is the state after its last update
     (s, showSt σ)
+  | ["idle"], some σ =>
+    -- a quiet period, then a call: no session-list update happened, the state and the call's outcome are those of `rpc`
+    (s, showRpc (rpc firstBalancer σ 0) ++ " " ++ showSt σ)
   | ["rpc"], some σ => (s, showRpc (rpc firstBalancer σ 0))
   | ["cancel"], some σ =>
     -- the lifetime ends: every session context ends with it, every session unregisters itself
